@@ -230,7 +230,7 @@ fn run_gated(tracer: &Tracer, rng: &mut StdRng, scenario: &str, tag: Value) {
                 g.release = true;
                 cv.notify_all();
                 let t0 = std::time::Instant::now();
-                while g.zombie_created == 0 && t0.elapsed() < Duration::from_millis(300) {
+                while g.zombie_created < 2 && t0.elapsed() < Duration::from_millis(300) {
                     let (g2, _) = cv.wait_timeout(g, Duration::from_millis(10)).unwrap();
                     g = g2;
                 }
@@ -452,7 +452,7 @@ fn run_gated(tracer: &Tracer, rng: &mut StdRng, scenario: &str, tag: Value) {
     w.dir.set_gate(None);
     if scenario == "drop_during_merge_reload" {
         let g = st.0.lock().unwrap();
-        tracer.emit(json!({"ev":"schedule","name":"new writer parked right after it read .managed.json while the dropped writer's merge thread registers its files","realised":g.parked2,"zombie_registered_meanwhile":g.zombie_created}));
+        tracer.emit(json!({"ev":"schedule","name":"new writer parked right after it read .managed.json while the dropped writer's merge thread registers its files","realised":g.parked2,"zombie_files_created_by_the_end":g.zombie_created}));
     }
     tracer.emit(json!({"ev":"schedule","name":if stale { "updater parked inside end_merge before the meta.json replacement; rollback + commit by the new writer in between".to_string() } else { format!("merge thread parked at its first {} during {scenario}", if predeleted { "open_read" } else { "open_write" }) },"realised":realised}));
     w.exec(&json!({"op":"observe"}));
